@@ -256,7 +256,7 @@ def main(argv=None):
     try:
         mod = importlib.import_module(f"props.{args.prop}")
         mod.run(ctx)
-    except (subprocess.TimeoutExpired, OSError, MemoryError, ImportError):
+    except (subprocess.TimeoutExpired, OSError, MemoryError, ImportError, SyntaxError):
         # environment trouble (time-out, disk, memory): not a verdict on the property
         traceback.print_exc()
         print(f"[{args.prop}] internal error in the checking machinery", flush=True)
